@@ -862,9 +862,59 @@ def holstein_rule(chk, src):
     chk.ob("holstein-square", "equal-frequency branch == general branch at w_e = w_g", eqn == gen_at_eq, fi.where, {k: str(v) for k, v in eqn.items()}, {k: str(v) for k, v in gen_at_eq.items()},
            line=fi.node.lineno)
     t10 = src.func(PH, "Phonon.term10")
+    phc = src.cls(PH, "Phonon")
+
+    def ph_eval(e, depth=0):
+        """Phonon-level scalar expression -> sympy, inlining other Phonon properties"""
+        if depth > 5:
+            raise AnalysisError("Phonon property recursion")
+        if isinstance(e, ast.Constant):
+            return sp.nsimplify(e.value)
+        t_ = unparse(e).replace(" ", "")
+        if t_ == "self.omega[0]":
+            return w0
+        if t_ == "self.omega[1]":
+            return w1
+        if t_ == "self.dis[1]":
+            return d1
+        if t_ == "self.dis[0]":
+            return sp.Integer(0)
+        if isinstance(e, ast.Attribute) and isinstance(e.value, ast.Name) and e.value.id == "self" and e.attr in phc.methods:
+            m = phc.methods[e.attr]
+            env_ = {}
+            for st in m.node.body:
+                if isinstance(st, ast.Assign) and isinstance(st.targets[0], ast.Name):
+                    env_[st.targets[0].id] = st.value
+            rr = [r.value for r in ast.walk(m.node) if isinstance(r, ast.Return)]
+            if len(rr) != 1:
+                raise AnalysisError(f"Phonon.{e.attr}: not a single-return property")
+            return ph_eval_in(rr[0], env_, depth + 1)
+        if isinstance(e, ast.Call):
+            f_ = unparse(e.func)
+            if f_ in ("np.sqrt", "math.sqrt"):
+                return sp.sqrt(ph_eval(e.args[0], depth))
+            if f_ in ("float", "Quantity", "abs") and e.args:
+                v_ = ph_eval(e.args[0], depth)
+                return sp.Abs(v_) if f_ == "abs" else v_
+            if isinstance(e.func, ast.Attribute) and e.func.attr == "as_au":
+                return ph_eval(e.func.value, depth)
+        if isinstance(e, ast.UnaryOp) and isinstance(e.op, ast.USub):
+            return -ph_eval(e.operand, depth)
+        if isinstance(e, ast.BinOp):
+            a_, b_ = ph_eval(e.left, depth), ph_eval(e.right, depth)
+            return {ast.Add: lambda: a_ + b_, ast.Sub: lambda: a_ - b_, ast.Mult: lambda: a_ * b_, ast.Div: lambda: a_ / b_, ast.Pow: lambda: a_ ** b_}[type(e.op)]()
+        raise AnalysisError(f"Phonon expression outside the fragment: {t_}")
+
+    def ph_eval_in(e, local, depth):
+        class Sub(ast.NodeTransformer):
+            def visit_Name(self_, n):
+                if n.id in local:
+                    return Sub().visit(ast.parse(unparse(local[n.id]), mode="eval").body)
+                return n
+        return ph_eval(Sub().visit(ast.parse(unparse(e), mode="eval").body), depth)
+
     r10 = [r.value for r in ast.walk(t10.node) if isinstance(r, ast.Return)][0]
-    tt = unparse(r10).replace(" ", "").replace("self.omega[0]", "W0").replace("self.omega[1]", "W1").replace("self.dis[1]", "D1").replace("np.sqrt", "SQRT")
-    v10 = C09.scalar_sym(ast.parse(tt.replace("SQRT(2.0*W0)", "S2W0"), mode="eval").body, {"W0": w0, "W1": w1, "D1": d1, "S2W0": sp.sqrt(2 * w0)})
+    v10 = ph_eval(r10)
     chk.ob("holstein-square", "Phonon.term10 * sqrt(2 w_g) == linear coupling of the model", sp.simplify(v10 * sp.sqrt(2 * w0) - k1) == 0, t10.where, str(v10), str(k1 / sp.sqrt(2 * w0)), line=t10.node.lineno,
            detail="the exact propagator (EX space) couples through term10 (b^dagger + b) with x = (b^dagger + b)/sqrt(2 w_g); it must be the model's linear coupling")
     diag = [n for n in ast.walk(fi.node) if isinstance(n, ast.Assign) and unparse(n.targets[0]) == "factor" and "e0" in unparse(n.value)]
